@@ -102,6 +102,53 @@ pub broadcast proof fn lemma_bflat2(ss: Seq<Seq<u8>>)
     assert(flat(ss) =~= ss[0] + ss[1]);
 }
 
+// [a, b, c].join(sep) / vec_of_vecs.join(sep) on byte containers
+pub open spec fn bjoin(ss: Seq<Seq<u8>>, sep: Seq<u8>) -> Seq<u8>
+    decreases ss.len()
+{
+    if ss.len() == 0 { Seq::empty() }
+    else if ss.len() == 1 { ss[0] }
+    else { bjoin(ss.drop_last(), sep) + sep + ss.last() }
+}
+pub open spec fn bviews(v: Seq<Vec<u8>>) -> Seq<Seq<u8>> { Seq::new(v.len(), |i: int| v[i]@) }
+pub trait RwsBJoin {
+    spec fn bparts(&self) -> Seq<Seq<u8>>;
+    fn rws_join(&self, sep: &[u8]) -> (r: Vec<u8>)
+        ensures r@ == bjoin(self.bparts(), sep@);
+}
+impl<const N: usize> RwsBJoin for [Vec<u8>; N] {
+    open spec fn bparts(&self) -> Seq<Seq<u8>> { bviews(self@) }
+    #[verifier::external_body]
+    fn rws_join(&self, sep: &[u8]) -> Vec<u8> { self.join(sep) }
+}
+impl RwsBJoin for Vec<Vec<u8>> {
+    open spec fn bparts(&self) -> Seq<Seq<u8>> { bviews(self@) }
+    #[verifier::external_body]
+    fn rws_join(&self, sep: &[u8]) -> Vec<u8> { self.join(sep) }
+}
+pub broadcast proof fn lemma_bjoin3_empty_sep(ss: Seq<Seq<u8>>, sep: Seq<u8>)
+    requires ss.len() == 3, sep.len() == 0,
+    ensures #[trigger] bjoin(ss, sep) == ss[0] + ss[1] + ss[2],
+{
+    reveal_with_fuel(bjoin, 4);
+    let d2 = ss.drop_last();
+    let d1 = d2.drop_last();
+    assert(d2.len() == 2 && d1.len() == 1);
+    assert(d2[0] == ss[0] && d2[1] == ss[1] && d1[0] == ss[0]);
+    assert(sep =~= Seq::<u8>::empty());
+    assert(bjoin(ss, sep) =~= ss[0] + ss[1] + ss[2]);
+}
+
+// `a == b` on byte slices: vstd specifies it element-wise; this (proved) lemma restates it on the views
+pub broadcast proof fn lemma_slice_eq_u8(a: &[u8], b: &[u8])
+    ensures #[trigger] vstd::std_specs::cmp::PartialEqSpec::eq_spec(a, b) == (a@ == b@),
+{
+    use vstd::std_specs::cmp::PartialEqSpec;
+    assert(a.eq_spec(b) == (a@.len() == b@.len() && forall|i: int| 0 <= i < a@.len() ==> (#[trigger] a@[i]).eq_spec(&b@[i])));
+    assert(forall|x: u8, y: u8| x.eq_spec(&y) == (x == y));
+    if a.eq_spec(b) { assert(a@ =~= b@); }
+}
+
 // R-INCLUDE: an embedded asset; its bytes are not modelled
 #[verifier::external_body]
 pub fn rws_include_bytes() -> (r: &'static [u8]) { &[] }
